@@ -27,6 +27,8 @@ type CallRecord struct {
 	MVPost  *Term
 	Sigma   Subst
 	TArgs   []types.Type
+	Obj     *Obj
+	Table   string
 }
 
 func (x *Exec) recordCall(st *State, fc *FuncContract, cx *Exec, origin *ssa.Function, args []Value, res []Value, in ssa.Instruction, pre *State) {
@@ -87,6 +89,19 @@ func (x *Exec) invoke(st *State, recv Value, m *types.Func, args []Value, in ssa
 		if b, ok := recv.(VBox); ok {
 			if sv, ok := b.Inner.(VService); ok {
 				x.nonNilCall(st, b.IsNil, "service", in)
+				if name, isConst := termString(sv.Alg); isConst {
+					if n, ok := x.V.serviceTypes()[name]; ok {
+						pkgPath := modPath + "/codec"
+						short := "(*" + n.Obj().Name() + ").Calc"
+						if fc := x.V.contractFor(pkgPath, short); fc != nil {
+							fn := x.V.lookupFunc(pkgPath, short)
+							recvObj := newObj("struct", n, "service", "global:service")
+							st.heap[recvObj] = &Content{Fields: map[int]Value{}}
+							r := x.applyContract(st, fc, fn, nil, []Value{VPtr{Obj: recvObj, IsNil: False}, args[0]}, in, cc)
+							return r
+						}
+					}
+				}
 				buf := x.bufOf(st, args[0], in, "checksum input")
 				u := st.get(buf).Seq
 				r := App("ck", SInt, sv.Alg, u)
@@ -107,6 +122,13 @@ func (x *Exec) invoke(st *State, recv Value, m *types.Func, args []Value, in ssa
 }
 
 func (x *Exec) serviceImplements(sv VService, at types.Type) *Term {
+	if name, ok := termString(sv.Alg); ok {
+		if n, ok := x.V.serviceTypes()[name]; ok {
+			if it, ok := at.Underlying().(*types.Interface); ok {
+				return BoolC(types.Implements(types.NewPointer(n), it))
+			}
+		}
+	}
 	// a registered service implements ChecksumService[*bytes.Buffer, R] for the R of its Calc
 	return App("svc_implements", SBool, sv.Alg, App("ifacetype_"+sanitize(types.TypeString(at, func(p *types.Package) string { return p.Name() })), SInt))
 }
@@ -167,20 +189,24 @@ func (x *Exec) schemaCall(st *State, method string, recv Value, bufv Value, in s
 	rec := &CallRecord{Callee: method, In: in, Ordinal: n, PreU: u0, Tag: tag, MV: mv0, MVPost: mv1}
 	if method == "Encode" {
 		rec.Kind = "schema-encode"
-		st.assume(And(Le(Len(u0), Len(u1)), Eq(Take(u1, Len(u0)), u0)))
+		st.assume(App("extends", SBool, u1, u0))
 		okc := encok(mv0)
 		if x.assumeOK != nil {
 			x.assumeOK(st, nil, in, okc)
 		}
-		st.assume(Implies(okc, errNil))
-		st.assume(Implies(errNil, And(Eq(u1, Cat(u0, W(mv0))), Eq(W(mv1), W(mv0)), Eq(canon(mv1), canon(mv0)), Eq(encok(mv1), encok(mv0)))))
-		if errNil.IsTrue() || st.implied(errNil) == 1 {
-			bc.Seq = Cat(u0, W(mv0))
+		post := And(Eq(W(mv1), W(mv0)), Eq(canon(mv1), canon(mv0)), Eq(encok(mv1), encok(mv0)))
+		if st.implied(okc) == 1 {
+			st.assume(errNil)
+			st.assume(post)
+			st.mut(buf).Seq = Cat(u0, W(mv0))
+		} else {
+			st.assume(Implies(okc, errNil))
+			st.assume(Implies(errNil, And(Eq(u1, Cat(u0, W(mv0))), post)))
 		}
 		st.alloc = Add(st.alloc, IntC(0))
 	} else {
 		rec.Kind = "schema-decode"
-		st.assume(And(Le(Len(u1), Len(u0)), Eq(Drop(u0, Sub(Len(u0), Len(u1))), u1)))
+		st.assume(App("suffixof", SBool, u1, u0))
 		// re
 		st.assume(Implies(errNil, And(Eq(u0, Cat(W(mv1), u1)), canon(mv1), encok(mv1))))
 		st.assume(Implies(errNil, Le(Add(Len(u1), App("minwidth", SInt, tag)), Len(u0))))
@@ -201,21 +227,38 @@ func (x *Exec) schemaCall(st *State, method string, recv Value, bufv Value, in s
 			}
 		}
 		segs := Segs(u0)
-		if gv == nil && len(segs) > 0 && segs[0].Op == "app" && segs[0].Name == "Wd" && Same(segs[0].Args[0], tag) {
-			gv = segs[0].Args[1]
-			gr = Cat(segs[1:]...)
+		structural := false
+		if gv == nil && len(segs) > 0 && segs[0].Op == "app" && segs[0].Name == "Wd" {
+			ht := segs[0].Args[0]
+			if !Same(ht, tag) && x.rtMode && ht.Op == "var" {
+				// the caller supplied this part: "body/extension type matching its discriminator" is the property's domain
+				st.assume(Eq(ht, tag))
+				x.V.assumptionsUsed["round-trip domain: a caller-supplied body/extension has the type its discriminator selects"] = true
+				ht = tag
+			}
+			if Same(ht, tag) {
+				gv = segs[0].Args[1]
+				gr = Cat(segs[1:]...)
+				structural = true
+			}
 		}
 		if gv != nil && gr != nil {
 			hyp := And(canon(gv), Eq(u0, Cat(W(gv), gr)))
-			st.assume(Implies(hyp, And(errNil, Eq(u1, gr), Eq(mv1, gv))))
-			if st.implied(canon(gv)) == 1 && Same(u0, Cat(W(gv), gr)) {
+			if structural {
+				hyp = canon(gv)
+			}
+			if structural && x.rtMode {
+				if st.implied(canon(gv)) != 1 {
+					x.oblige(st, "pre", label+"/rt/canon", canon(gv), "the part being decoded is in the round-trip domain")
+					st.assume(canon(gv))
+				}
+				st.assume(And(errNil, Eq(u1, gr), Eq(mv1, gv)))
 				st.mut(buf).Seq = gr
 				st.mut(o).MV = gv
 				mv1 = gv
 				rec.MVPost = gv
-				if hasErr {
-					st.assume(errNil)
-				}
+			} else {
+				st.assume(Implies(hyp, And(errNil, Eq(u1, gr), Eq(mv1, gv))))
 			}
 		}
 		// allocation: a nested decoder allocates in proportion to what it consumes (its own alloc obligation)
@@ -387,6 +430,12 @@ func (x *Exec) tableCall(st *State, ti *TableInfo, short string, args []Value, i
 		st.dead = true
 		return VOpaque{Why: "no table"}
 	}
+	if !dom.IsTrue() && !dom.IsFalse() {
+		x.V.tblTerms[dom.Key()] = tblRef{table: ti.Var, key: key, what: "dom"}
+	}
+	if tag.Op == "ite" {
+		x.V.tblTerms[tag.Key()] = tblRef{table: ti.Var, key: key, what: "tag"}
+	}
 	if x.assumeOK != nil {
 		x.assumeOK(st, nil, in, dom)
 	}
@@ -396,7 +445,7 @@ func (x *Exec) tableCall(st *State, ti *TableInfo, short string, args []Value, i
 	errNil := FreshBool(short + ".err.isnil")
 	st.assume(Eq(errNil, dom))
 	if x.onCall != nil {
-		x.onCall(st, &CallRecord{Callee: short, Kind: "table", In: in, Tag: tag, MV: key, Results: []Value{VBool{dom}}})
+		x.onCall(st, &CallRecord{Callee: short, Kind: "table", In: in, Tag: tag, MV: key, Results: []Value{VBool{dom}}, Obj: o, Table: ti.Var})
 	}
 	return VTuple{VIface{IsNil: Not(dom), Obj: o}, VErr{errNil}}
 }
@@ -411,4 +460,140 @@ func (V *Verifier) sortedTableNames(pkg string) []string {
 	}
 	sort.Strings(out)
 	return out
+}
+
+// ExtractTables symbolically executes the init functions of a package and records what each
+// discriminator table holds afterwards: key -> dynamic type of the fresh zero message its factory returns.
+func (V *Verifier) ExtractTables(pkgPath string) ([]*Obligation, map[string]*ExtractedTable) {
+	p := V.pkgs[pkgPath]
+	res := map[string]*ExtractedTable{}
+	var obs []*Obligation
+	var inits []*ssa.Function
+	for name, m := range p.Members {
+		if fn, ok := m.(*ssa.Function); ok && strings.HasPrefix(name, "init#") {
+			inits = append(inits, fn)
+		}
+	}
+	// Go runs init functions in the order the files are presented to the compiler (sorted by name), then by position
+	sort.Slice(inits, func(i, j int) bool {
+		pi, pj := V.prog.Fset.Position(inits[i].Pos()), V.prog.Fset.Position(inits[j].Pos())
+		if pi.Filename != pj.Filename {
+			return pi.Filename < pj.Filename
+		}
+		return pi.Offset < pj.Offset
+	})
+	hook := func(x *Exec, st *State, o *Obj, k Value, bv *Term, val Value) {
+		name := pkgPath + "." + o.Name
+		et := res[name]
+		if et == nil {
+			et = &ExtractedTable{Name: name}
+			res[name] = et
+		}
+		key := keyValueTerm(k)
+		if key == nil || !isGround(key) {
+			et.Bad = append(et.Bad, "non-constant key")
+			return
+		}
+		var tag *Term
+		if fv, ok := val.(VFunc); ok {
+			tag = x.closureTag(st, fv, nil)
+		} else {
+			tag = App("tag_not_a_factory", SInt)
+		}
+		// a later registration of the same key replaces the earlier one
+		for i, e := range et.Entries {
+			if Same(e.Key, key) {
+				et.Entries[i].Tag = tag
+				return
+			}
+		}
+		et.Entries = append(et.Entries, ExtractedEntry{Key: key, Tag: tag, Pos: len(et.Entries)})
+	}
+	V.initHooks = append(V.initHooks, hook)
+	defer func() { V.initHooks = V.initHooks[:len(V.initHooks)-1] }()
+	for _, fn := range inits {
+		if len(fn.Blocks) == 0 {
+			continue
+		}
+		x := V.newExec(fn, nil, Subst{}, p.Pkg.Name()+"."+fn.Name(), "init")
+		x.emitSafe = true
+		x.props = []string{"C12"}
+		st := &State{env: map[ssa.Value]Value{}, heap: map[*Obj]*Content{}, alloc: IntC(0), entryOf: map[*ssa.BasicBlock]*State{}, variant: map[*ssa.BasicBlock]*Term{}, callOrd: map[string]int{}}
+		x.old = st.clone()
+		x.onReturn = func(s *State, r []Value) {}
+		x.execAll(st)
+		if x.returns != 1 {
+			x.fail(st, "subset", "init-not-straight-line", "init functions are expected to be straight-line registrations")
+		}
+		obs = append(obs, x.obs...)
+	}
+	return obs, res
+}
+
+func isGround(t *Term) bool {
+	fv := map[string]*Term{}
+	FreeVars(t, fv)
+	return len(fv) == 0
+}
+
+// ---------------------------------------------------------------- checksum registry (caller side)
+
+func termString(t *Term) (string, bool) {
+	var b []byte
+	for _, s := range Segs(t) {
+		if s.Op == "app" && s.Name == "unit" && s.Args[0].IsConst() {
+			b = append(b, byte(s.Args[0].Val.Int64()))
+		} else {
+			return "", false
+		}
+	}
+	return string(b), true
+}
+
+// serviceTypes maps an algorithm name to the service type whose Algorithm() contract returns it.
+func (V *Verifier) serviceTypes() map[string]*types.Named {
+	if V.svcTypes != nil {
+		return V.svcTypes
+	}
+	V.svcTypes = map[string]*types.Named{}
+	pkgPath := modPath + "/codec"
+	p := V.pkgs[pkgPath]
+	if p == nil {
+		return V.svcTypes
+	}
+	for _, mem := range p.Members {
+		t, ok := mem.(*ssa.Type)
+		if !ok {
+			continue
+		}
+		n, ok := t.Type().(*types.Named)
+		if !ok {
+			continue
+		}
+		fc := V.contractFor(pkgPath, "(*"+n.Obj().Name()+").Algorithm")
+		if fc == nil || len(fc.Ensures) != 1 {
+			continue
+		}
+		e := fc.Ensures[0]
+		if e.Kind == "bin" && e.Name == "==" && e.Args[1].Kind == "str" {
+			V.svcTypes[e.Args[1].Name] = n
+		}
+	}
+	return V.svcTypes
+}
+
+// registryGet is the caller-side contract of codec.Get:
+//   ensures \result.1 ==> Algorithm(\result.0) == algorithm          (every entry is filed under its own name, C19)
+//   assumption registry_default: the built-in services are registered under their names when frames are encoded.
+func (x *Exec) registryGet(st *State, args []Value) Value {
+	alg := args[0].(VStr).T
+	ok := FreshBool("registered")
+	if name, isConst := termString(alg); isConst {
+		if _, builtin := x.V.serviceTypes()[name]; builtin {
+			x.V.assumptionsUsed["registry_default: the built-in checksum services are registered under their names (nobody removed them)"] = true
+			ok = True
+		}
+	}
+	x.V.noteGlobal(x.inst, modPath+"/codec.checksumServiceContext", "read-under-lock")
+	return VTuple{VBox{Inner: VService{Alg: alg}, Type: nil, IsNil: Not(ok)}, VBool{ok}}
 }
